@@ -132,4 +132,24 @@ def judgeSctpServe (d : DictRt) (fin : Fin) (cn : String) (chunkTok : String) (i
     return { model := modelOut, fails := fails.eraseDups.take 4,
              tags := [s!"serve streams={ids.length} chunks={chunks.length} msgs={hs.length} cn={cn}"] }
 
+/-- `sctp canswer streams=<s.s.s> rounds=<r> => a:<id>:<in>:<out> ...`: every answer leaves on
+    the stream its request arrived on, whatever else is being written at the same time. -/
+def judgeCAnswer (streamsTok : String) (rounds : Nat) (impl : List String) : Judged :=
+  let streams := (streamsTok.splitOn ".").filterMap String.toNat?
+  let rows := (List.range rounds).flatMap (fun r =>
+    (List.range streams.length).map (fun i =>
+      let s := streams.getD i 0
+      let req : Msg := { hdr := { version := 1, len := 20, flags := 128, cmd := 280, app := 0, hbh := 1000 * (r + 1) + i, e2e := 1000 * (r + 1) + i }, avps := [], stream := s }
+      let a := req.answer 2001 0 0
+      s!"a:{a.hdr.hbh}:{s}:{sctpStreamOf a.writeStream}"))
+  let out := if rows.isEmpty then "-" else " ".intercalate rows
+  let implOut := " ".intercalate impl
+  let bad := impl.filter (fun t => match t.splitOn ":" with
+    | ["a", _, i, o] => i ≠ o
+    | _ => false)
+  { model := out,
+    fails := (if bad.isEmpty then [] else ["C16:answer-written-on-a-different-stream"]) ++
+             (if implOut = "stalled" then ["C16:concurrent-answers-stall"] else []),
+    tags := [s!"canswer streams={streams.length} rounds={rounds}"] }
+
 end DV.Drv
